@@ -831,6 +831,7 @@ pub fn generated_readonly_workloads(depth: usize) -> Vec<(String, usize, Vec<WSt
             WStep::FillConsume(0, 100),
             WStep::FillConsume(0, 1 << 20),
             WStep::SeekStart(0, 0),
+            WStep::SeekStart(0, 1024),
             WStep::SeekStart(0, 1300),
             WStep::SeekStart(0, len - 500),
             WStep::SeekCur(0, -600),
